@@ -118,8 +118,9 @@ def name_atomics(prog, v, prefix=''):
 
 
 class Extraction:
-    def __init__(self, prog, cap_mode, handler, timeout_ms=60000):
+    def __init__(self, prog, cap_mode, handler, timeout_ms=60000, order='ch'):
         self.prog, self.cap_mode, self.handler = prog, cap_mode, handler
+        self.order = order        # builder call order: 'ch' = with_capacity then with_error_handler, 'hc' = the reverse
         self.programs = {}
         self.stats = []
         self.init = None
@@ -128,10 +129,11 @@ class Extraction:
     def build_handle(self, ex):
         p = self.prog
         b = ex.call(p.find_impl_method('builder', 'QueuingMetricSink'), [])
-        if self.cap_mode == 'bounded':
-            b = ex.call(p.find_impl_method('with_capacity', 'QueuingMetricSinkBuilder'), [b, Int(z3.BitVec('cap', 64), 'usize')])
-        if self.handler:
-            b = ex.call(p.find_impl_method('with_error_handler', 'QueuingMetricSinkBuilder'), [b, Native('EnvIoHandler', None, fresh_id())])
+        for step in (self.order if self.order in ('ch', 'hc') else 'ch'):
+            if step == 'c' and self.cap_mode == 'bounded':
+                b = ex.call(p.find_impl_method('with_capacity', 'QueuingMetricSinkBuilder'), [b, Int(z3.BitVec('cap', 64), 'usize')])
+            if step == 'h' and self.handler:
+                b = ex.call(p.find_impl_method('with_error_handler', 'QueuingMetricSinkBuilder'), [b, Native('EnvIoHandler', None, fresh_id())])
         return ex.call(p.find_impl_method('build', 'QueuingMetricSinkBuilder'), [b, Native('EnvSink', None, fresh_id())])
 
     def run_program(self, which):
@@ -258,7 +260,21 @@ def static_checks(x: Extraction, findings):
                     fail('C10', 'emit-depends-on-room-only', 'emit reads shared state %s' % ops[kinds.index(k)].get('loc'))
         sends = [o for o in ops if o['kind'] in ('try_send', 'send_blocking')]
         if len(sends) != 1:
-            fail('C08', 'emit-enqueues-once', 'emit path with %d channel sends: %s' % (len(sends), ' ; '.join(fmt_op(o) for o in ops)))
+            text = None
+            for o in ops:
+                if o['kind'] == 'branch' and o.get('cond') is not None and 'len_m' in o['cond'].sexpr():
+                    sv = z3.Solver()
+                    sv.add(o['cond'])
+                    if sv.check() == z3.sat and sv.model().eval(z3.BitVec('len_m', 64), model_completion=True).as_long() == 0:
+                        text = ''
+            em = {'do': 'emit'}
+            if text is not None:
+                em['text'] = text
+            sc = {'kind': 'queue', 'capacity': 1 if x.cap_mode == 'bounded' else None, 'handler': x.handler, 'builder_order': x.order,
+                  'steps': [{'do': 'emit'}, {'do': 'wait_enter'}, {'do': 'emit'}, em, {'do': 'release', 'outcome': 'ok'}]}
+            for prop in ('C08', 'C10'):
+                fail(prop, 'emit-enqueues-once', 'emit path with %d channel sends (result %s): %s' % (len(sends), leaf[1], ' ; '.join(fmt_op(o) for o in ops)))
+                findings[-1]['scenario'] = sc
             continue
         s = sends[0]
         if s['payload'] != ('some', (('str', 'm'),)):
@@ -298,6 +314,8 @@ def static_checks(x: Extraction, findings):
                 pending_err = None
         if pending_err is not None and x.handler:
             fail('C16', 'handler-once-per-error', 'a wrapped-sink error is not handed to the configured handler: %s' % ' ; '.join(fmt_op(o) for o in ops))
+            findings[-1]['scenario'] = {'kind': 'queue', 'capacity': 2 if x.cap_mode == 'bounded' else None, 'handler': True, 'builder_order': x.order,
+                                        'steps': [{'do': 'emit'}, {'do': 'wait_enter'}, {'do': 'release', 'outcome': 'err:Other'}]}
         if not x.handler and any(o['kind'] == 'handler' for o in ops):
             fail('C16', 'no-handler-configured', 'a handler is invoked although none was configured')
 
